@@ -123,6 +123,12 @@ def judge_cases(rep, pid, cases, compare=D.strip_far, label="", mmcache=None, ke
             known.append(c)
             info[c["id"]]["verdict"] = "known"
             continue
+        if len(rep.violations) < 2 and os.environ.get("VT_NO_SHRINK") != "1":
+            sm = shrink(pid, c, compare)      # the replay file holds a small case
+            c = dict(c, g=sm["g"], s=sm["s"])
+            b2 = D.Built(c["g"], c["cfg"])
+            real = real_outcome(b2, G.text(c["s"]))
+            exp = tlc.oracle("PegOracle", [dict(id=0, g=c["g"], cfg=c["cfg"], s=c["s"], devs=[[]])])[0][0]["out"][0]
         rep.violation(dict(describe(c), raw=dict(g=c["g"], cfg=c["cfg"], s=c["s"]), observed=compare(real),
                            expected=compare(exp)),
                       f"{label or pid}: grammar {G.render_grammar(c['g']).strip()!r} input {G.text(c['s'])!r}: "
@@ -318,3 +324,79 @@ def replay_witnesses(rep, pid, compare=D.strip_far):
             rep.known_finding(f["id"], describe(raw))
         else:
             rep.note(f"finding {f['id']}: stored witness no longer misbehaves")
+
+
+# ----------------------------------------------------------------------------- shrinking of violations
+def _subexprs_replacements(e):
+    """Candidates obtained by replacing e by one of its children, or dropping one element."""
+    k = e["k"]
+    out = []
+    if k in ("seq", "alt", "unord"):
+        for i in range(len(e["es"])):
+            out.append(e["es"][i])
+            if len(e["es"]) > 2 or (k != "unord" and len(e["es"]) > 1):
+                rest = e["es"][:i] + e["es"][i + 1:]
+                out.append(dict(e, es=rest) if len(rest) > 1 else rest[0])
+        for i, c in enumerate(e["es"]):
+            for r in _subexprs_replacements(c):
+                out.append(dict(e, es=e["es"][:i] + [r] + e["es"][i + 1:]))
+    elif k in ("opt", "star", "plus", "and", "not"):
+        out.append(e["e"])
+        for r in _subexprs_replacements(e["e"]):
+            out.append(dict(e, e=r))
+    return out
+
+
+def _grammar_candidates(g):
+    out = []
+    rules = g["rules"]
+    for i in range(1, len(rules)):
+        out.append(dict(rules=rules[:i] + rules[i + 1:]))
+    for i, r in enumerate(rules):
+        for b in _subexprs_replacements(r["body"])[:40]:
+            out.append(dict(rules=rules[:i] + [dict(r, body=b)] + rules[i + 1:]))
+        if r["skipws"] != "inherit" or r["ws"]:
+            out.append(dict(rules=rules[:i] + [dict(r, skipws="inherit", ws=[])] + rules[i + 1:]))
+    return out
+
+
+def shrink(pid, case, compare=D.strip_far, rounds=6):
+    """Greedy shrinking: drop a rule, replace a sub-expression by a child, drop input characters;
+    every candidate is re-judged (real code vs Peg!Outcome); keeps candidates that still disagree."""
+    import copy
+    cur = dict(g=case["g"], cfg=case["cfg"], s=list(case["s"]))
+    for _ in range(rounds):
+        cands = []
+        for g2 in _grammar_candidates(cur["g"]):
+            g2 = G.number(copy.deepcopy(g2))
+            cands.append(dict(g=g2, cfg=cur["cfg"], s=cur["s"]))
+        for i in range(len(cur["s"])):
+            cands.append(dict(g=cur["g"], cfg=cur["cfg"], s=cur["s"][:i] + cur["s"][i + 1:]))
+        cands = cands[:400]
+        for i, c in enumerate(cands):
+            c["id"] = i
+            c["devs"] = [[]]
+        if not cands:
+            break
+        try:
+            res, _ = tlc.oracle("PegOracle", cands)
+        except tlc.MachineryError:
+            break
+        best = None
+        for c in cands:
+            r = res[c["id"]]
+            if not r["wf"]:
+                continue
+            try:
+                real = real_outcome(D.Built(c["g"], c["cfg"]), G.text(c["s"]))
+            except Exception:
+                continue
+            if common.canon(compare(real)) != common.canon(compare(r["out"][0])):
+                size = len(common.canon(c["g"])) + 5 * len(c["s"])
+                if best is None or size < best[0]:
+                    best = (size, c)
+        cursize = len(common.canon(cur["g"])) + 5 * len(cur["s"])
+        if best is None or best[0] >= cursize:
+            break
+        cur = dict(g=best[1]["g"], cfg=best[1]["cfg"], s=best[1]["s"])
+    return cur
